@@ -102,6 +102,9 @@ func (k *kindDef) tables(n int) [][]FSpec {
 		return t
 	}
 	t := k.paras(n)
+	for i := range t {
+		t[i] = withAudit(t[i])
+	}
 	tableCache[key] = t
 	return t
 }
